@@ -498,7 +498,7 @@ func (ev *crashEval) violate(prop, sig, detail, cs string) {
 }
 
 // what a recovery leaves behind must survive a compaction cycle over all tables (run by the probe after its reads)
-func (ev *crashEval) evalCompaction(im *crashImage, abs *crashAbs, probe *crashProbe, prop, pre, cs string) {
+func (ev *crashEval) evalCompaction(im *crashImage, abs *crashAbs, probe *crashProbe, prop, pre, post, cs string) {
 	if probe.Open != "ok" || probe.Compact == "" {
 		return
 	}
@@ -506,14 +506,14 @@ func (ev *crashEval) evalCompaction(im *crashImage, abs *crashAbs, probe *crashP
 	if strings.HasPrefix(probe.Compact, "err") {
 		ev.res.Stat("post-recovery-compaction:fails")
 		ev.badHash[im.Hash] = true
-		ev.violate(prop, pre+"compaction-fails-after-recovery:"+abs.Class(), "the compaction cycle over all tables after re-opening failed: "+probe.Compact, cs)
+		ev.violate(prop, pre+"compaction-fails-after-recovery:"+abs.Class()+post, "the compaction cycle over all tables after re-opening failed: "+probe.Compact, cs)
 		return
 	}
 	ev.res.Stat("post-recovery-compaction:" + strings.SplitN(probe.Compact, ":", 2)[0])
 	for _, k := range ev.run.S.Keys {
 		if probe.After[k] != probe.Vals[k] {
 			ev.badHash[im.Hash] = true
-			ev.violate(prop, pre+"reads-change-after-post-recovery-compaction:"+abs.Class(),
+			ev.violate(prop, pre+"reads-change-after-post-recovery-compaction:"+abs.Class()+post,
 				fmt.Sprintf("key %s reads %s after re-opening and %s after the compaction cycle that followed", k, probe.Vals[k], probe.After[k]), cs)
 			return
 		}
@@ -1128,7 +1128,7 @@ func runCrash(res *Result, drv *Driver, seed uint64, n int, tier string, only in
 				}
 				done[im.Hash] = true
 				probe := cache.m[im.Hash]
-				ev.evalCompaction(im, im.Abs, probe, ev.compactionProp(), "", ev.caseStr(im, probe, ""))
+				ev.evalCompaction(im, im.Abs, probe, ev.compactionProp(), "", "", ev.caseStr(im, probe, ""))
 				if drv == nil {
 					continue
 				}
@@ -1341,7 +1341,7 @@ func crashRunNested(res *Result, ev *crashEval, run *crashRun, sel []*crashImage
 				res.Stat("nested:images-in-close-after-recovery")
 			}
 			extra := fmt.Sprintf(" | then recovery of that image interrupted after %s | depth-2 image: %s | depth-2 reopen: %s", x.where, x.abs.Line(), clipN(p.Raw, 400))
-			ev.evalCompaction(n.im, x.abs, p, prop, pre, ev.caseStr(n.im, n.expected, extra))
+			ev.evalCompaction(n.im, x.abs, p, prop, pre, ":interrupted-at-"+x.at, ev.caseStr(n.im, n.expected, extra))
 			if p.Open != "ok" {
 				ev.violate(prop, pre+"open-fails:"+crashOpenFailClass(x.abs, p.Open)+":interrupted-at-"+x.at, "re-opening after an interrupted recovery failed: "+p.Open, ev.caseStr(n.im, n.expected, extra))
 				continue
